@@ -398,12 +398,11 @@ def stnsMatrix (sme : List Str) (skip : List Int) : Except Err Str :=
     match subVcv tri skip vcv vcv.length vcv.length 1 with
     | .error e => .error e
     | .ok sub =>
-      match sub, tri with
-      | [], _ => .ok (hdr ++ wl blockEnd)
-      | _, none => .error unbound
-      | _, some t => match mapReformatRows sub with
-        | .error e => .error e
-        | .ok rows => .ok (hdr ++ unlines (emitRows t 1 rows) ++ wl blockEnd)
+      -- when `matrix` is unbound (`tri = none`) `sub` is empty here (a kept row would already have
+      -- raised in `subVcv`), and the second loop does not look at `matrix`
+      match mapReformatRows sub with
+      | .error e => .error e
+      | .ok rows => .ok (hdr ++ unlines (emitRows (tri.getD .L) 1 rows) ++ wl blockEnd)
 
 /-- the header line written by `remove_stns_sinex` -/
 def stnsHeader (lines : List Str) (sites : List Str) (c : Clock) : Except Err Str :=
